@@ -10,7 +10,7 @@ META = {
                  "refines 'le' to 'lt'). R05.2: typestate Fresh/Stale over every CdnsDecoder member: each read through m_p "
                  "happens directly after a refill check with m_p unmoved. R05.3: the read path is exception-transparent "
                  "(no handler between the decoder and CdnsReader::read_block's caller) and a block is returned only after "
-                 "CdnsBlockRead::read returned. R05.3 no-input-after-block: between the completed block.read() and the return of that block read_block calls nothing that can reach read_to_buffer (positive control in tu/rule_controls.cpp). R05.4: m_input is touched only by read_to_buffer and the constructor. R05.5: a decoder member that stores a window position or a value read through the window is re-initialised by the refill (or is only consulted under a key that is) - positive control. R05.6: a data member that is always assigned the same function of other members (cdnsverif/derived.py) is recomputed by every member function that changes those members; the lazy form under a validity flag / stored key is refreshed before every read and invalidated after every change (what the decoder remembers about bytes in its window). R05.1 also: no normal exit lies between the refill and the test for an empty window, and m_end is m_buffer plus a count every store of which is gcount() or 0. R05.2: inside read_int, reads and moves the typestate pass cannot place are decided by the R07.4 path tabulation, which checks every read and move against the bytes buffered on each path; a computed offset that no window test bounds is undecided.",
+                 "CdnsBlockRead::read returned. R05.3 no-input-after-block: between the completed block.read() and the return of that block read_block calls nothing that can reach read_to_buffer (positive control in tu/rule_controls.cpp). R05.4: m_input is touched only by read_to_buffer and the constructor. R05.5: a decoder member that stores a window position or a value read through the window is re-initialised by the refill (or is only consulted under a key that is) - positive control. R05.6: a data member that is always assigned the same function of other members (cdnsverif/derived.py) is recomputed by every member function that changes those members; the lazy form under a validity flag / stored key is refreshed before every read and invalidated after every change (what the decoder remembers about bytes in its window). R05.1 also: no normal exit lies between the refill and the test for an empty window, and m_end is m_buffer plus a count every store of which is gcount() or 0. R05.2: inside read_int, reads and moves the typestate pass cannot place are decided by the R07.4 path tabulation, which checks every read and move against the bytes buffered on each path; a computed offset that no window test bounds is undecided. R05.7: CdnsReader::read_block enumerated path by path (loop-free): a path that decodes a block leaves the end-of-input flag false, every other returning path leaves it true (a flag left as the caller passed it fails), and the decoding path increments exactly the member an end-of-blocks test compares with the declared count.",
     "explanation": "Abstract interpretation of one function plus a typestate pass over the decoder class; necessary conditions of "
                    "'end of input is always detected' valid for every input length. Equality of the returned blocks with the "
                    "prefix's blocks is not decided.",
